@@ -476,6 +476,20 @@ def body(case, ctx):
             if c.strip() and c not in data and ' '.join(c.split()) not in ' '.join(data.split()):
                 ctx.mismatch('table-cell-missing', '%s: cell text %r not in the table' % (what, c[:60]), rc)
                 return
+        # the page is the table of *this* value: one document, and rendering the same value again gives the same page
+        # (nothing of an earlier response - earlier tables, closers - may pile up in a later one)
+        if s.tags.count('html') != 1 or s.tags.count('body') > 1:
+            ctx.mismatch('table-page-not-one-document', '%s: the page has %d <html> and %d <body> start tags'
+                         % (what, s.tags.count('html'), s.tags.count('body')), rc)
+            return
+        r2 = call(app, '/' + renderer, query='&'.join(q), headers=hdrs)
+        ctx.requests += 1
+        if r2.exc is not None or r2.status != r.status or r2.body != r.body:
+            s2 = Scan()
+            s2.feed(r2.body.decode('utf8', 'replace'))
+            ctx.mismatch('table-differs-on-repeat', '%s: rendering the same value again gives another page (%d bytes, %d tables; first %d bytes, %d tables)'
+                         % (what, len(r2.body), s2.tags.count('table'), len(r.body), s.tags.count('table')), rc)
+            return
         ctx.event('basic-html-table')
         nt(ctx, spec, rc, force=True)
         return
